@@ -1123,6 +1123,10 @@ func (la *lockAnalysis) solve() {
 			callees := la.calleesOf(ci)
 			name := calleeName(ci)
 			for ai, a := range cc.Args {
+				// a closure converted to a named func type (type visitor func(..)) is still that closure
+				if ct, isCT := a.(*ssa.ChangeType); isCT {
+					a = ct.X
+				}
 				mc, ok := a.(*ssa.MakeClosure)
 				if !ok {
 					continue
